@@ -36,7 +36,8 @@ CASE_TIMEOUT_S = 40
 LEVEL_TEXT = (
     "PARTIAL. Proved in Lean 4 for the seed/key logic of dask.array.random (no size bound): seed_formula (block b of "
     "the k-th construction gets the SeedSequence child spawn_key++[n0+Σ earlier blocks+b] — a function of the seed, "
-    "the program and b only, hence seeded_reproducible), all_seeds_nodup (no two blocks of any constructions share a "
+    "the program and b only; seeded_reproducible is then immediate, the model being a function of the seed state — the content "
+    "is seed_formula and its agreement with the real graphs), all_seeds_nodup (no two blocks of any constructions share a "
     "seed), same_generator_names_distinct and unseeded_names_distinct (separate constructions get distinct names, so "
     "each keeps its own draw when computed together), history_names_nodup / successive_identical_calls_distinct / "
     "rs_names_nodup (one generator object threaded through a whole history of calls incl. choice and interleaved "
@@ -44,7 +45,9 @@ LEVEL_TEXT = (
     "entropy_only_name_collides (refutation of naming by the children's entropy), rs_windows_nodup (RandomState windows), "
     "choice_no_replace_single_chunk (the guard makes multi-chunk replace=False unreachable). NOT expressible/proved: "
     "statistical independence of the streams; 'identical values on every scheduler' is reduced to 'identical graph' "
-    "(+ C01) and validated by running sync/threads/processes; distinctness of NumPy's single-block choice is trusted."
+    "(+ C01) and validated by running sync/threads/processes; distinctness of NumPy's single-block choice is trusted. "
+    "The history section reaches every public method of Generator and RandomState (incl. multivariate_hypergeometric, "
+    "permutation, choice, and RandomState.seed as a replay); computed shape = declared shape = NumPy's shape is checked there."
 )
 LEVEL_NOTE = ("Trusted: NumPy bit generators and SeedSequence (child seeds ↦ independent streams), tokenize injective "
               "(C12), schedulers compute the graph (C01). Fresh OS entropy is modelled as a fresh entropy id.")
